@@ -298,7 +298,7 @@ def run(ctx):
                 "submit/start/finish/consume/raise events are validated against PoolProps by TLC (PoolTrace). "
                 "Non-trivial: schedules with an out-of-order completion or a failing file.")
     configs = [(4, 2, True), (3, 2, False), (3, 1, True)] if quick else \
-        [(5, 2, True), (5, 3, True), (5, 1, True), (5, 2, False), (4, 3, False)]      # (n = 6 exceeds 10^8 event prefixes)
+        [(5, 2, True), (5, 3, True), (5, 1, True), (4, 2, False), (4, 3, False)]      # (n = 6, and n = 5 for map, exceed 10^8 event prefixes)
     items = []
     for n, w, lazy in configs:
         cases = design_and_cases(ctx, n, w, lazy)
